@@ -1012,15 +1012,13 @@ Proof.
     apply N.eqb_eq in E. exfalso. destruct Hc as [Hc|Hc]; [congruence|]. apply Hi. congruence.
 Qed.
 
-Lemma step_flushdone s fid : Inv s -> Inv (fst (mstep c s (EFlushDone fid))) /\ safe_out (snd (mstep c s (EFlushDone fid))).
+Lemma flushdone_inv s fid m : Inv s -> ms_imm s = Some m -> Inv (do_flushdone c fid m s).
 Proof.
-  intros [IA IV IR IS]. cbn [mstep]. destruct (ms_imm s) as [m|] eqn:Eimm; cbn [fst snd].
-  2:{ split; [constructor; assumption|split; discriminate]. }
-  split; [|split; discriminate]. unfold do_flushdone. cbv zeta.
-  set (levels := flush_levels fid m s).
+  intros [IA IV IR IS] Eimm. unfold do_flushdone. cbv zeta.
+  generalize (flush_levels fid m s). intros levels.
   destruct (install_new_inv levels s IV IR) as [IV' IR'].
   destruct (install_new_frame levels s) as [[F1 [F2 [F3 [F4 [F5 [F6 F7]]]]]] N1].
-  set (s1 := install_new levels s) in *.
+  revert IV' IR' F1 F2 F3 F4 F5 F6 F7 N1. generalize (install_new levels s). intros s1 IV' IR' F1 F2 F3 F4 F5 F6 F7 N1.
   assert (InvA s1) as IA1 by (eapply InvA_ext; [| | | | |exact IA]; try assumption; rewrite N1; lia).
   destruct (a_imm _ IA m Eimm) as [_ Hne].
   assert (InvA (clear_imm s1)) as IA1' by (apply clear_imm_A; exact IA1).
@@ -1031,6 +1029,13 @@ Proof.
   - eapply InvV_ext'; [| | | |exact IV']; try reflexivity; try (ms; lia).
   - eapply InvR_ext; [| | |exact IR']; reflexivity.
   - unfold clear_imm. ms. rewrite F7. exact IS.
+Qed.
+
+Lemma step_flushdone s fid : Inv s -> Inv (fst (mstep c s (EFlushDone fid))) /\ safe_out (snd (mstep c s (EFlushDone fid))).
+Proof.
+  intros HI. cbn [mstep]. destruct (ms_imm s) as [m|] eqn:Eimm; cbn [fst snd].
+  2:{ split; [exact HI|split; discriminate]. }
+  split; [|split; discriminate]. now apply flushdone_inv.
 Qed.
 
 Lemma step_unlink s fs : Inv s -> Inv (fst (mstep c s (EUnlinkTrash fs))) /\ safe_out (snd (mstep c s (EUnlinkTrash fs))).
@@ -1328,6 +1333,33 @@ Proof.
   - rewrite F7, E2. unfold s1. ms. now apply NoDup_filter_map.
 Qed.
 
+(* a write in its parts: only sequence numbers, or one entry of one memtable, change *)
+Lemma step_fields s s' : Inv s -> ms_mts s' = ms_mts s -> ms_scans s' = ms_scans s -> ms_mem s' = ms_mem s -> ms_imm s' = ms_imm s ->
+  ms_next s' = ms_next s -> ms_vers s' = ms_vers s -> ms_cur s' = ms_cur s -> ms_refs s' = ms_refs s -> ms_disk s' = ms_disk s -> Inv s'.
+Proof.
+  intros [IA IV IR IS] E1 E2 E3 E4 E5 E6 E7 E8 E9. constructor.
+  - eapply InvA_ext; [| | | | |exact IA]; try assumption. rewrite E5. lia.
+  - eapply InvV_ext'; [| | | |exact IV]; try assumption. rewrite E5. lia.
+  - eapply InvR_ext; [| | |exact IR]; assumption.
+  - rewrite E2. exact IS.
+Qed.
+Lemma step_assign s : Inv s -> Inv (fst (mstep c s EAssign)) /\ safe_out (snd (mstep c s EAssign)).
+Proof. intros I. cbn [mstep fst snd]. split; [|split; discriminate]. apply (step_fields s); auto. Qed.
+Lemma step_publish s n : Inv s -> Inv (fst (mstep c s (EPublish n))) /\ safe_out (snd (mstep c s (EPublish n))).
+Proof.
+  intros I. cbn [mstep]. destruct ((ms_vis s <? n)%N && (n <=? ms_seq s)%N); cbn [fst snd]; (split; [|split; discriminate]); [|exact I].
+  apply (step_fields s); auto.
+Qed.
+Lemma step_insert s m k n v : Inv s -> Inv (fst (mstep c s (EInsert m k n v))) /\ safe_out (snd (mstep c s (EInsert m k n v))).
+Proof.
+  intros I. cbn [mstep]. destruct (insert_ok s m k n); cbn [fst snd]; (split; [|split; discriminate]); [|exact I].
+  destruct I as [IA IV IR IS]. constructor.
+  - apply upd_mt_keep; [|exact IA]. intros y. repeat split.
+  - eapply InvV_ext'; [| | | |exact IV]; try reflexivity; try (ms; lia).
+  - eapply InvR_ext; [| | |exact IR]; reflexivity.
+  - exact IS.
+Qed.
+
 Theorem step_inv s e : Inv s -> Inv (fst (mstep c s e)) /\ safe_out (snd (mstep c s e)).
 Proof.
   intros I. destruct e.
@@ -1340,6 +1372,9 @@ Proof.
   - now apply step_open.
   - now apply step_step.
   - now apply step_close.
+  - now apply step_assign.
+  - now apply step_insert.
+  - now apply step_publish.
 Qed.
 
 Theorem run_safe : forall es s, Inv s -> Forall safe_out (snd (mrun c s es)) /\ Inv (fst (mrun c s es)).
